@@ -12,7 +12,8 @@ import (
 	"pgregory.net/rapid"
 )
 
-var FieldVocab = []string{"_id", "a", "b", "title", "zz"}
+// "Body" sorts before "_id" byte-wise: the field list must still start with `_id`.
+var FieldVocab = []string{"_id", "a", "b", "title", "zz", "Body"}
 
 // UnknownField is never part of a batch.
 const UnknownField = "nope"
@@ -124,7 +125,7 @@ func genField(t *rapid.T, sc *Scenario, allowed []string) Field {
 		nl := rapid.SampledFrom([]int{0, 0, 0, 1, 1, 2, 3}).Draw(t, "nLocs")
 		for li := 0; li < nl; li++ {
 			l := Loc{
-				Field: rapid.SampledFrom([]string{"", "", f.Name, "a", "b", "title", "zz", "_id"}).Draw(t, "locField"),
+				Field: rapid.SampledFrom([]string{"", "", f.Name, "a", "b", "title", "zz", "_id", "Body"}).Draw(t, "locField"),
 				Pos:   rapid.SampledFrom(posVals).Draw(t, "pos"),
 				Start: rapid.SampledFrom(posVals).Draw(t, "start"),
 				End:   rapid.SampledFrom(posVals).Draw(t, "end"),
